@@ -365,6 +365,9 @@ func (e *Env) RIndex() {
 					if constBoundedIndex(info, fd, x) {
 						return true // array indexed by a variable that only ever holds in-range constants
 					}
+					if sortCallbackIndex(info, fd, x) || lenGuardedSearchIndex(info, fd, x) {
+						return true // valid by the contract of package sort / guarded by i < len(S)
+					}
 					add("var", x.Pos(), x)
 				}
 			case *ast.SliceExpr:
@@ -837,4 +840,196 @@ func constBoundedIndex(info *types.Info, fd *ast.FuncDecl, x *ast.IndexExpr) boo
 		return true
 	})
 	return good && seen
+}
+
+// sortCallbackIndex: S[i] inside the function literal passed to sort.Slice/SliceStable(S, …) or
+// sort.Search(len(S), …), i being a parameter of that literal: in range by the contract of sort.
+func sortCallbackIndex(info *types.Info, fd *ast.FuncDecl, x *ast.IndexExpr) bool {
+	id, ok := ast.Unparen(x.Index).(*ast.Ident)
+	if !ok {
+		return false
+	}
+	base := types.ExprString(x.X)
+	found := false
+	ast.Inspect(fd.Body, func(n ast.Node) bool {
+		call, ok := n.(*ast.CallExpr)
+		if !ok || len(call.Args) != 2 {
+			return true
+		}
+		lit, ok := call.Args[1].(*ast.FuncLit)
+		if !ok || !(lit.Body.Pos() <= x.Pos() && x.End() <= lit.Body.End()) {
+			return true
+		}
+		isParam := false
+		for _, p := range lit.Type.Params.List {
+			for _, nm := range p.Names {
+				if info.Defs[nm] == info.Uses[id] {
+					isParam = true
+				}
+			}
+		}
+		if !isParam {
+			return true
+		}
+		switch funcKey(calleeFunc(info, call)) {
+		case "sort.Slice", "sort.SliceStable":
+			found = types.ExprString(call.Args[0]) == base
+		case "sort.Search":
+			found = types.ExprString(call.Args[0]) == "len("+base+")"
+		}
+		return true
+	})
+	return found
+}
+
+// lenGuardedSearchIndex: S[i] with i the result of sort.Search (>= 0), used to the right of
+// `i < len(S) &&` or inside an if whose condition has i < len(S) as a conjunct.
+func lenGuardedSearchIndex(info *types.Info, fd *ast.FuncDecl, x *ast.IndexExpr) bool {
+	id, ok := ast.Unparen(x.Index).(*ast.Ident)
+	if !ok {
+		return false
+	}
+	o := info.Uses[id]
+	base := types.ExprString(x.X)
+	// every definition of i is a sort.Search call
+	defs, good := 0, true
+	ast.Inspect(fd.Body, func(n ast.Node) bool {
+		as, ok := n.(*ast.AssignStmt)
+		if !ok || len(as.Lhs) != len(as.Rhs) {
+			return true
+		}
+		for k, l := range as.Lhs {
+			if lid, ok := l.(*ast.Ident); ok && (info.Defs[lid] == o || info.Uses[lid] == o) {
+				defs++
+				if cl, ok := as.Rhs[k].(*ast.CallExpr); !ok || funcKey(calleeFunc(info, cl)) != "sort.Search" {
+					good = false
+				}
+			}
+		}
+		return true
+	})
+	if defs == 0 || !good {
+		return false
+	}
+	isGuard := func(e ast.Expr) bool {
+		be, ok := ast.Unparen(e).(*ast.BinaryExpr)
+		if !ok || be.Op != token.LSS {
+			return false
+		}
+		l, ok := ast.Unparen(be.X).(*ast.Ident)
+		return ok && info.Uses[l] == o && types.ExprString(be.Y) == "len("+base+")"
+	}
+	var conj func(e ast.Expr) bool
+	conj = func(e ast.Expr) bool {
+		e = ast.Unparen(e)
+		if isGuard(e) {
+			return true
+		}
+		if be, ok := e.(*ast.BinaryExpr); ok && be.Op == token.LAND {
+			return conj(be.X) || conj(be.Y)
+		}
+		return false
+	}
+	guarded := false
+	ast.Inspect(fd.Body, func(n ast.Node) bool {
+		switch v := n.(type) {
+		case *ast.BinaryExpr:
+			if v.Op == token.LAND && v.Y.Pos() <= x.Pos() && x.End() <= v.Y.End() && conj(v.X) {
+				guarded = true
+			}
+		case *ast.IfStmt:
+			if v.Body.Pos() <= x.Pos() && x.End() <= v.Body.End() && conj(v.Cond) {
+				guarded = true
+			}
+		}
+		return true
+	})
+	return guarded
+}
+
+// RDeadAppend (R-LOST): `v = append(v, x)` on a local slice whose value is never read afterwards
+// loses x. The classic form is a slice read out of a map (v := m[k]), appended to, and not stored
+// back: the map keeps the shorter slice. Checked in every function of the in-scope packages: after
+// the append (or anywhere in an enclosing loop) v must be read — stored, passed, returned, ranged
+// over — or be a named result.
+func (e *Env) RDeadAppend() {
+	n := 0
+	for _, pkg := range e.Prog.InScopePkgs() {
+		info := pkg.TypesInfo
+		for _, fd := range load.AllFuncDecls(pkg) {
+			if fd.Body == nil {
+				continue
+			}
+			named := map[types.Object]bool{}
+			if fd.Type.Results != nil {
+				for _, r := range fd.Type.Results.List {
+					for _, nm := range r.Names {
+						named[info.Defs[nm]] = true
+					}
+				}
+			}
+			var loops []ast.Node
+			ast.Inspect(fd.Body, func(nd ast.Node) bool {
+				switch nd.(type) {
+				case *ast.ForStmt, *ast.RangeStmt:
+					loops = append(loops, nd)
+				}
+				return true
+			})
+			ast.Inspect(fd.Body, func(nd ast.Node) bool {
+				as, ok := nd.(*ast.AssignStmt)
+				if !ok || len(as.Lhs) != 1 || len(as.Rhs) != 1 || as.Tok != token.ASSIGN {
+					return true
+				}
+				lid, ok := as.Lhs[0].(*ast.Ident)
+				if !ok {
+					return true
+				}
+				call, ok := as.Rhs[0].(*ast.CallExpr)
+				if !ok || len(call.Args) < 1 {
+					return true
+				}
+				if fid, ok := call.Fun.(*ast.Ident); !ok || fid.Name != "append" {
+					return true
+				} else if _, isB := info.Uses[fid].(*types.Builtin); !isB {
+					return true
+				}
+				aid, ok := ast.Unparen(call.Args[0]).(*ast.Ident)
+				v, isVar := info.Uses[lid].(*types.Var)
+				if !ok || !isVar || info.Uses[aid] != types.Object(v) || v.IsField() || named[v] {
+					return true
+				}
+				if v.Parent() == pkg.Types.Scope() {
+					return true // package-level variable
+				}
+				n++
+				// region in which a read counts: after the statement, or anywhere in an enclosing loop
+				from, to := as.End(), fd.Body.End()
+				for _, l := range loops {
+					if l.Pos() <= as.Pos() && as.End() <= l.End() && l.Pos() < from {
+						from = l.Pos()
+					}
+				}
+				read := false
+				ast.Inspect(fd.Body, func(m ast.Node) bool {
+					if inner, ok := m.(*ast.AssignStmt); ok && inner == as {
+						return false // the append itself
+					}
+					id, ok := m.(*ast.Ident)
+					if !ok || info.Uses[id] != types.Object(v) || id.Pos() < from || id.Pos() > to {
+						return true
+					}
+					read = true
+					return true
+				})
+				// uses that are only further self-appends or plain overwrites are not reads; keep it
+				// simple: any other mention counts
+				e.Run.Check("R-LOST", fmt.Sprintf("%s: the slice %s is used after being appended to", load.FuncName(fd), v.Name()), e.Prog.Pos(as.Pos()), read,
+					fmt.Sprintf("`%s` is the last mention of %s: the appended element is lost (a slice taken out of a map or struct and appended to must be stored back)", types.ExprString(as.Lhs[0])+" = "+types.ExprString(as.Rhs[0]), v.Name()))
+				return true
+			})
+		}
+	}
+	e.Run.Analysed("self-appends to local slices", n)
+	e.Run.Floor("R-LOST", "self-appends to local slices", n, 5)
 }
